@@ -10,6 +10,8 @@
 (*   "in" begin < t < end - 1   "atbegin" t = begin   "beforebegin" t = begin - 1 *)
 (*   "endm1" t = end - 1        "atend" t = end       "future" inside the  *)
 (*   window but ahead of the verifier clock by the slack threshold or more *)
+(*   (the enumerated case: by exactly the threshold)  "slackm1" inside the *)
+(*   window and ahead of the clock by one second less than the threshold   *)
 (***************************************************************************)
 EXTENDS Integers, Sequences, FiniteSets, Json, IOUtils, TLC
 
@@ -18,8 +20,8 @@ VARIABLES sc, auth, idx, status
 
 vars == <<sc, auth, idx, status>>
 RootKey == 1
-Wins == {"in", "atbegin", "beforebegin", "endm1", "atend", "future"}
-WinOK(w) == w \in {"in", "atbegin", "endm1"}
+Wins == {"in", "atbegin", "beforebegin", "endm1", "atend", "future", "slackm1"}
+WinOK(w) == w \in {"in", "atbegin", "endm1", "slackm1"}
 
 \* honest key of position i in a chain: 1 = root, i + 1 = i-th delegate; 8 / 9 = foreign keys
 Certs(i) == [d : {i + 1, 9}, s : {i, 8}, win : Wins, can : BOOLEAN]
